@@ -75,8 +75,12 @@ def operand_positions(rng, depth):
         return el("mover", sub(), mo(rng.choice(["¯", "^", "→"])))
     if r < 0.975:
         return mrow(P(), sub())            # implied times with a number
-    if r < 0.985:
+    if r < 0.982:
         return mrow(el(rng.choice(["msub", "msup"]), mi(rng.choice("xyzab")), P()), P(), sub())      # a numeric script directly followed by a number
+    if r < 0.99:
+        # a power / index on a function name (the rules speak small integer powers as ordinals)
+        tag = rng.choice(["msup", "msup", "msub", "msubsup"])
+        return mrow(el(tag, mi(rng.choice(["sin", "cos", "tan", "log", "ln", "f"])), *([P(), P()] if tag == "msubsup" else [P()])), mo("⁡"), sub())
     return el("mmultiscripts", mi("C"), P(), N("none"), N("mprescripts"), P(), N("none"))
 
 
@@ -118,6 +122,7 @@ FIXED = [
     lambda: el("mroot", mrow(mi("x"), mo("+"), mn("@")), mn("@")),
     lambda: mrow(mi("sin"), mo("⁡"), mrow(mo("("), mn("@"), mi("x"), mo(")"))),
     lambda: el("mfrac", el("mfrac", mn("@"), mn("@")), el("msup", mn("@"), mn("@"))),
+    lambda: mrow(el("msup", mi("sin"), mn("@")), mo("⁡"), mi("x"), mo("+"), el("msup", mi("log"), mn("@")), mo("⁡"), mrow(mo("("), mn("@"), mo(")")), mo("+"), el("msub", mi("log"), mn("@")), mo("⁡"), mi("y")),
 ]
 
 
